@@ -1,6 +1,6 @@
 SPECIFICATION Spec
 CONSTANTS
- Mols <- MolsDev
+ Mols <- MCMols
  Dev = "readerSkip"
  FixedOrder = TRUE
 INVARIANT RoundTripI
